@@ -204,7 +204,10 @@ func c19objects() []c19obj {
 			return []c19op{
 				{"c1.WriteTo", func() { _, _ = c1.WriteTo([]byte("ping"), to2) }},
 				{"c2.WriteTo", func() { _, _ = c2.WriteTo([]byte("pong"), to1) }},
-				{"c1.ReadFrom", func() { _ = c1.SetReadDeadline(zzvsched.Now().Add(time.Millisecond)); _, _, _ = c1.ReadFrom(make([]byte, 8)) }},
+				{"c1.ReadFrom", func() {
+					_ = c1.SetReadDeadline(zzvsched.Now().Add(time.Millisecond))
+					_, _, _ = c1.ReadFrom(make([]byte, 8))
+				}},
 				{"c1.Close", func() { _ = c1.Close() }},
 				{"c1.SetReadDeadline", func() { _ = c1.SetReadDeadline(zzvsched.Now().Add(time.Millisecond)) }},
 				{"router.AddChunkFilter", func() { r.AddChunkFilter(func(vnet.Chunk) bool { return true }) }},
@@ -230,6 +233,9 @@ func c19objects() []c19obj {
 				}},
 				{"Set(rate)", func() { f.Set(vnet.TBFRate(2 * vnet.MBit)) }},
 				{"Set(burst)", func() { f.Set(vnet.TBFMaxBurst(4000)) }},
+				// setters in both directions: lowering a limit may touch state that raising it does not
+				{"Set(burst lower)", func() { f.Set(vnet.TBFMaxBurst(600)) }},
+				{"Set(rate lower)", func() { f.Set(vnet.TBFRate(100 * vnet.KBit)) }},
 				{"traffic2", func() { vnet.ZZPush(f, vnet.ZZUDPChunk("10.0.0.1:1", "10.0.0.2:3", make([]byte, 100))) }},
 			}
 		}},
@@ -242,7 +248,10 @@ func c19objects() []c19obj {
 			return []c19op{
 				{"traffic-a", func() { vnet.ZZPush(lfil, vnet.ZZUDPChunk("10.0.0.1:1", "10.0.0.2:2", []byte("a"))) }},
 				{"traffic-b", func() { vnet.ZZPush(lfil, vnet.ZZUDPChunk("10.0.0.1:1", "10.0.0.2:2", []byte("b"))) }},
-				{"traffic-c", func() { zzvsched.Sleep(time.Millisecond); vnet.ZZPush(df, vnet.ZZUDPChunk("10.0.0.1:1", "10.0.0.2:2", []byte("c"))) }},
+				{"traffic-c", func() {
+					zzvsched.Sleep(time.Millisecond)
+					vnet.ZZPush(df, vnet.ZZUDPChunk("10.0.0.1:1", "10.0.0.2:2", []byte("c")))
+				}},
 			}
 		}},
 		{name: "udp listener", setup: func() []c19op {
@@ -312,7 +321,10 @@ func c19objects() []c19obj {
 					}
 				}},
 				{"lan->known-remote", func() { _, _ = ca.WriteTo([]byte("z"), to1) }},
-				{"lan.read", func() { _ = ca.SetReadDeadline(zzvsched.Now().Add(time.Millisecond)); _, _, _ = ca.ReadFrom(make([]byte, 8)) }},
+				{"lan.read", func() {
+					_ = ca.SetReadDeadline(zzvsched.Now().Add(time.Millisecond))
+					_, _, _ = ca.ReadFrom(make([]byte, 8))
+				}},
 			}
 		}},
 		{name: "independent networks", setup: func() []c19op {
@@ -336,7 +348,7 @@ func c19objects() []c19obj {
 	}
 }
 
-func c19counts() []int { return []int{6, 4, 6, 6, 9, 4, 3, 8, 5, 3, 2} }
+func c19counts() []int { return []int{6, 4, 6, 6, 9, 6, 3, 8, 5, 3, 2} }
 
 func init() {
 	register(&Check{ID: "C19", ShardByScenario: true,
